@@ -89,14 +89,18 @@ def tropical_graph():
 
 
 class GraphIdVal(Model):
+    def m_subst(self, m):
+        from .expr import cond_subst
+        return GraphIdVal(cond_subst(self.key_, m))
+
     def __init__(self, key):
         self.key_ = key
         Model.__init__(self, "graph(%s)" % key, {"id": lambda: Num(Expr.zero(), ent=key), "num_edges": lambda: num_size("E")}, calls={
             "get_id": lambda I, a: Num(Expr.zero(), ent=self.key_),
             "is_empty": lambda I, a: Cond("key", "empty(%s)" % self.key_),
             "has_one_edge": lambda I, a: Cond("key", "one_edge(%s)" % self.key_),
-            "pop_edge": lambda I, a: GraphIdVal("pop(%s,%s)" % (self.key_, I.ent_of(a[0]))),
-            "contains_edges": lambda I, a: Arr(("E",), lambda k: Num(Expr.zero(), ent="edge(%s,%s)" % (self.key_, k)), name="edges(%s)" % self.key_),
+            "pop_edge": lambda I, a: GraphIdVal("pop(%s,«%s»)" % (self.key_, I.ent_of(a[0]))),
+            "contains_edges": lambda I, a: Arr(("edges(%s)" % self.key_,), lambda k: Num(Expr.leaf("$ix", k), ent=k), name="edges(%s)" % self.key_),
         })
 
 
